@@ -335,6 +335,166 @@ Qed.
 
 Open Scope R_scope.
 
+(* ------------------------------------------------------------------ duplicate entries: sum_duplicates *)
+(* SPEC: the dense meaning of a stored column that may hold a row index several times (and in any order):
+   the sum of the values stored for that row *)
+Definition lookup_sum (k : Z) (c : list (Z * R)) : R :=
+  sumR (map snd (filter (fun e => (fst e =? k)%Z) c)).
+
+Lemma lookup_sum_cons : forall e c k,
+  lookup_sum k (e :: c) = (if (fst e =? k)%Z then snd e else 0) + lookup_sum k c.
+Proof. intros. unfold lookup_sum. simpl. destruct (fst e =? k)%Z; simpl; lra. Qed.
+
+Lemma lookup_sum_nil : forall k, lookup_sum k [] = 0.
+Proof. reflexivity. Qed.
+
+(* ... does not depend on the storage order (no uniqueness needed) *)
+Lemma lookup_sum_perm : forall c c' k, Permutation c c' -> lookup_sum k c = lookup_sum k c'.
+Proof. induction 1; rewrite ?lookup_sum_cons; lra. Qed.
+
+Lemma lookup_sum_explicit_zero : forall c i k, lookup_sum k ((i, 0) :: c) = lookup_sum k c.
+Proof. intros. rewrite lookup_sum_cons. simpl. destruct (i =? k)%Z; lra. Qed.
+
+Lemma lookup_sum_notin : forall c k, ~ In k (keys c) -> lookup_sum k c = 0.
+Proof.
+  induction c as [|[j v] t IH]; intros k H; [reflexivity|]. rewrite lookup_sum_cons. simpl.
+  destruct (j =? k)%Z eqn:E; [apply Z.eqb_eq in E; subst; exfalso; apply H; left; reflexivity|].
+  rewrite IH; [lra|]. intro Hc. apply H. right. exact Hc.
+Qed.
+
+(* with at most one entry per row it is the plain lookup of the NoDup theorems *)
+Lemma lookup_sum_nodup : forall c k, NoDup (keys c) -> lookup_sum k c = lookupR k c.
+Proof.
+  induction c as [|[j v] t IH]; intros k Hn; [reflexivity|]. rewrite lookup_sum_cons. simpl. inversion Hn; subst.
+  destruct (j =? k)%Z eqn:E.
+  - apply Z.eqb_eq in E. subst. rewrite (lookup_sum_notin t k H1). lra.
+  - rewrite IH by assumption. lra.
+Qed.
+
+Lemma lookup_sum_nonneg : forall c k, nonnegv (map snd c) -> 0 <= lookup_sum k c.
+Proof.
+  induction c as [|[j v] t IH]; intros k H; [unfold lookup_sum; simpl; lra|]. rewrite lookup_sum_cons. simpl in *.
+  inversion H; subst. specialize (IH k H3). destruct (j =? k)%Z; lra.
+Qed.
+
+Lemma lookup_sum_sort_col : forall c k, lookup_sum k (sort_col R c) = lookup_sum k c.
+Proof. intros. symmetry. apply lookup_sum_perm. apply sort_col_perm. Qed.
+
+Lemma strictly_incr_spec : forall l, strictly_incr l = true -> incr l.
+Proof.
+  induction l as [|x l IH]; intros H; [constructor|]. destruct l as [|y t]; [repeat constructor|].
+  simpl in H. apply andb_prop in H. destruct H as [Hxy Ht]. apply Z.ltb_lt in Hxy.
+  specialize (IH Ht). constructor; [exact IH|]. constructor; [exact Hxy|].
+  pose proof (incr_head _ _ IH) as Hh. eapply Forall_impl; [|exact Hh]. intros; simpl in *; lia.
+Qed.
+
+Lemma sort_col_id : forall c : list (Z * R), incr (keys c) -> sort_col R c = c.
+Proof.
+  induction c as [|e t IH]; intros H; [reflexivity|]. simpl. simpl in H. rewrite IH by (eapply incr_tail; eauto).
+  destruct t as [|e' t']; [reflexivity|]. simpl.
+  pose proof (incr_head _ _ H) as Hh. simpl in Hh. inversion Hh; subst.
+  destruct (fst e <? fst e')%Z eqn:E; [reflexivity|apply Z.ltb_ge in E; lia].
+Qed.
+
+Section Dups.
+  Variable eps : R.
+  Notation O := (R_ops eps).
+
+  Lemma sum_dups_from_incl : forall l j x, incl (keys (sum_dups_from R O j x l)) (j :: keys l).
+  Proof.
+    induction l as [|[j' v] t IH]; intros j x; simpl; [apply incl_refl|].
+    destruct (j' =? j)%Z eqn:E.
+    - intros k Hk. apply IH in Hk. destruct Hk as [Hk|Hk]; [left; exact Hk|right; right; exact Hk].
+    - simpl. intros k [Hk|Hk]; [left; exact Hk|]. right. apply IH in Hk. exact Hk.
+  Qed.
+
+  (* on a column sorted by row index the output has strictly increasing indices ... *)
+  Lemma sum_dups_from_incr : forall l j x, wsorted (j :: keys l) -> incr (keys (sum_dups_from R O j x l)).
+  Proof.
+    induction l as [|[j' v] t IH]; intros j x Hs; simpl; [repeat constructor|].
+    simpl in Hs. inversion Hs as [|? ? Hs' Hall]; subst. inversion Hall as [|? ? Hjj' Hall']; subst.
+    destruct (j' =? j)%Z eqn:E.
+    - apply Z.eqb_eq in E. subst j'. apply IH. exact Hs'.
+    - apply Z.eqb_neq in E. simpl. constructor; [apply IH; exact Hs'|].
+      apply Forall_forall. intros k Hk. apply sum_dups_from_incl in Hk.
+      inversion Hs' as [|? ? _ Hall'']; subst. rewrite Forall_forall in Hall''.
+      destruct Hk as [Hk|Hk]; [subst; lia|specialize (Hall'' _ Hk); lia].
+  Qed.
+
+  (* ... and each of them carries the sum of the values stored for it *)
+  Lemma sum_dups_from_lookup : forall l j x k, wsorted (j :: keys l) ->
+    lookupR k (sum_dups_from R O j x l) = (if (j =? k)%Z then x else 0) + lookup_sum k l.
+  Proof.
+    induction l as [|[j' v] t IH]; intros j x k Hs; simpl.
+    - rewrite lookup_sum_nil. destruct (j =? k)%Z; lra.
+    - simpl in Hs. inversion Hs as [|? ? Hs' Hall]; subst. inversion Hall as [|? ? Hjj' Hall']; subst.
+      rewrite lookup_sum_cons. simpl fst. simpl snd.
+      destruct (j' =? j)%Z eqn:E.
+      + apply Z.eqb_eq in E. subst j'. rewrite IH by exact Hs'.
+        destruct (j =? k)%Z; lra.
+      + apply Z.eqb_neq in E. simpl. destruct (j =? k)%Z eqn:Ek.
+        * apply Z.eqb_eq in Ek. subst k.
+          destruct (j' =? j)%Z eqn:E2; [apply Z.eqb_eq in E2; lia|].
+          rewrite lookup_sum_notin; [lra|].
+          inversion Hs' as [|? ? _ Hall'']; subst. rewrite Forall_forall in Hall''.
+          intro Hc. specialize (Hall'' _ Hc). lia.
+        * rewrite IH by exact Hs'. lra.
+  Qed.
+
+  Lemma sum_dups_from_nonneg : forall l j x, 0 <= x -> nonnegv (map snd l) ->
+    nonnegv (map snd (sum_dups_from R O j x l)).
+  Proof.
+    induction l as [|[j' v] t IH]; intros j x Hx Hl; simpl; [constructor; [exact Hx|constructor]|].
+    simpl in Hl. inversion Hl; subst. destruct (j' =? j)%Z.
+    - apply IH; [simpl; lra|assumption].
+    - simpl. constructor; [exact Hx|]. apply IH; assumption.
+  Qed.
+
+  Lemma sum_dups_from_id : forall t j x, incr (j :: keys t) -> sum_dups_from R O j x t = (j, x) :: t.
+  Proof.
+    induction t as [|[j' v] t IH]; intros j x H; simpl; [reflexivity|].
+    simpl in H. pose proof (incr_head _ _ H) as Hh. inversion Hh; subst.
+    destruct (j' =? j)%Z eqn:E; [apply Z.eqb_eq in E; lia|].
+    rewrite IH by (eapply incr_tail; eauto). reflexivity.
+  Qed.
+
+  Lemma sum_dups_id : forall c, incr (keys c) -> sum_dups R O c = c.
+  Proof. intros [|[j v] t] H; [reflexivity|]. simpl. apply sum_dups_from_id. exact H. Qed.
+
+  (* csr_sum_duplicates after sort_indices, on any stored column *)
+  Lemma canon_col_spec : forall c,
+    incr (keys (canon_col R O c))
+    /\ (forall k, lookupR k (canon_col R O c) = lookup_sum k c)
+    /\ incl (keys (canon_col R O c)) (keys c)
+    /\ (nonnegv (map snd c) -> nonnegv (map snd (canon_col R O c))).
+  Proof.
+    intros c. unfold canon_col. pose proof (sort_col_sorted c) as Hs. pose proof (sort_col_perm c) as Hp.
+    assert (Hk : forall k, lookup_sum k (sort_col R c) = lookup_sum k c) by (intro; apply lookup_sum_sort_col).
+    assert (Hincl : incl (keys (sort_col R c)) (keys c)).
+    { intros k Hin. unfold keys in *. eapply Permutation_in; [apply Permutation_map, Permutation_sym, Hp|exact Hin]. }
+    assert (Hnn : nonnegv (map snd c) -> nonnegv (map snd (sort_col R c))).
+    { intros H. unfold nonnegv in *. eapply Permutation_Forall; [apply Permutation_map; exact Hp|exact H]. }
+    destruct (sort_col R c) as [|[j v] t]; simpl.
+    - repeat split; [constructor|intro k; rewrite <- Hk; reflexivity|intros k []|intros; constructor].
+    - simpl in Hs. repeat split.
+      + apply sum_dups_from_incr. exact Hs.
+      + intro k. rewrite sum_dups_from_lookup by exact Hs. rewrite <- Hk, lookup_sum_cons. reflexivity.
+      + intros k Hin. apply sum_dups_from_incl in Hin. apply Hincl. exact Hin.
+      + intros H. specialize (Hnn H). simpl in Hnn. inversion Hnn; subst. apply sum_dups_from_nonneg; assumption.
+  Qed.
+
+  (* a matrix already in canonical format is used as it is; otherwise every column is sorted and summed.  Both
+     branches are [map canon_col] *)
+  Lemma canonicalise_map : forall cols, canonicalise R O cols = map (canon_col R O) cols.
+  Proof.
+    intros cols. unfold canonicalise. destruct (has_canonical_format R cols) eqn:E; [|reflexivity].
+    unfold has_canonical_format in E. rewrite forallb_forall in E.
+    transitivity (map (fun c : list (Z * R) => c) cols); [symmetry; apply map_id|].
+    apply map_ext_in. intros c Hc. specialize (E c Hc). apply strictly_incr_spec in E.
+    unfold canon_col. rewrite sort_col_id by exact E. symmetry. apply sum_dups_id. exact E.
+  Qed.
+End Dups.
+
 (* ------------------------------------------------------------------ the matrix-level model equals the dense definition *)
 Definition rowsum (M : nat -> nat -> R) (m : nat) (i : nat) : R := sumR (map (fun j => M i j) (seq 0 m)).
 Definition total (M : nat -> nat -> R) (n m : nat) : R := sumR (map (rowsum M m) (seq 0 n)).
@@ -354,39 +514,46 @@ Lemma map_nth_seq : forall (A B : Type) (f : A -> B) (l : list A) d,
   map (fun j => f (nth j l d)) (seq 0 (length l)) = map f l.
 Proof. induction l; intros; simpl; auto. f_equal. rewrite <- seq_shift, map_map. apply IHl. Qed.
 
+(* the dense meaning of a stored matrix whose columns may repeat a row index: sum by coordinate *)
+Definition MxS (cols : list (list (Z * R))) (i j : nat) : R := lookup_sum (Z.of_nat i) (nth j cols []).
+
+(* a stored column of a count matrix with n rows, any order, explicit zeros and duplicates allowed:
+   indices in range, values >= 0 *)
+Definition col_okd (n : nat) (c : list (Z * R)) : Prop := in_range n (keys c) /\ nonnegv (map snd c).
+
+Lemma col_ok_okd : forall n c, col_ok n c -> col_okd n c.
+Proof. intros n c (_ & H1 & H2). split; assumption. Qed.
+
 Section Matrix.
   Variable eps : R.
   Notation O := (R_ops eps).
 
-  Lemma row_fold_R : forall (c : list (Z * R)) i acc, NoDup (keys c) ->
-    fold_left (fun a e => if (fst e =? i)%Z then a + snd e else a) c acc = acc + lookupR i c.
+  Lemma row_fold_R : forall (c : list (Z * R)) i acc,
+    fold_left (fun a e => if (fst e =? i)%Z then a + snd e else a) c acc = acc + lookup_sum i c.
   Proof.
-    induction c as [|[j v] t IH]; intros i acc Hn; simpl; [lra|]. inversion Hn; subst.
-    rewrite IH by assumption. destruct (j =? i)%Z eqn:E; [|reflexivity].
-    apply Z.eqb_eq in E. subst. rewrite (lookup_notin_keys t i H1). lra.
+    induction c as [|[j v] t IH]; intros i acc; simpl; [rewrite lookup_sum_nil; lra|].
+    rewrite IH, lookup_sum_cons. simpl. destruct (j =? i)%Z; lra.
   Qed.
 
-  Lemma row_count_R : forall cols i, Forall (fun c => NoDup (keys c)) cols ->
-    row_count R O cols i = sumR (map (lookupR i) cols).
+  Lemma row_count_R : forall cols i, row_count R O cols i = sumR (map (lookup_sum i) cols).
   Proof.
-    intros cols i H. unfold row_count. simpl.
+    intros cols i. unfold row_count. simpl.
     assert (G : forall acc, fold_left (fun acc c => fold_left (fun a e => if (fst e =? i)%Z then a + snd e else a) c acc) cols acc
-                            = acc + sumR (map (lookupR i) cols)).
-    { induction H as [|c cols Hc Hcs IH]; intros acc; simpl; [lra|]. rewrite IH, row_fold_R by assumption. lra. }
+                            = acc + sumR (map (lookup_sum i) cols)).
+    { induction cols as [|c cols IH]; intros acc; simpl; [lra|]. rewrite IH, row_fold_R. lra. }
     rewrite G. lra.
   Qed.
 
-  Lemma row_sums_R : forall n cols, Forall (fun c => NoDup (keys c)) cols ->
-    row_sums R O n cols = map (rowsum (Mx cols) (length cols)) (seq 0 n).
+  Lemma row_sums_R : forall n cols, row_sums R O n cols = map (rowsum (MxS cols) (length cols)) (seq 0 n).
   Proof.
-    intros n cols H. unfold row_sums. apply map_ext. intros i. rewrite row_count_R by assumption.
-    unfold rowsum, Mx. rewrite (map_nth_seq _ _ (lookupR (Z.of_nat i)) cols []). reflexivity.
+    intros n cols. unfold row_sums. apply map_ext. intros i. rewrite row_count_R.
+    unfold rowsum, MxS. rewrite (map_nth_seq _ _ (lookup_sum (Z.of_nat i)) cols []). reflexivity.
   Qed.
 
-  Lemma baseline_R : forall n cols, Forall (fun c => NoDup (keys c)) cols ->
-    baseline R O n cols = map (fun i => rowsum (Mx cols) (length cols) i / total (Mx cols) n (length cols)) (seq 0 n).
+  Lemma baseline_R : forall n cols,
+    baseline R O n cols = map (fun i => rowsum (MxS cols) (length cols) i / total (MxS cols) n (length cols)) (seq 0 n).
   Proof.
-    intros n cols H. unfold baseline. simpl. rewrite sum_list_R, row_sums_R by assumption.
+    intros n cols. unfold baseline. simpl. rewrite sum_list_R, row_sums_R.
     rewrite map_map. reflexivity.
   Qed.
 
@@ -396,67 +563,67 @@ Section Matrix.
     rewrite map_nth. rewrite seq_nth by assumption. reflexivity.
   Qed.
 
-  Lemma sorted_col_ok : forall n c, col_ok n c ->
-    sparse_ok R (map fst (sort_col R c)) (map snd (sort_col R c))
-    /\ in_range n (map fst (sort_col R c)) /\ nonnegv (map snd (sort_col R c)).
+  Lemma canon_col_ok : forall n c, col_okd n c ->
+    sparse_ok R (map fst (canon_col R O c)) (map snd (canon_col R O c))
+    /\ in_range n (map fst (canon_col R O c)) /\ nonnegv (map snd (canon_col R O c)).
   Proof.
-    intros n c (Hn & Hr & Hv).
-    pose proof (sort_col_perm c) as Hp. repeat split.
-    - apply sort_col_incr. assumption.
+    intros n c (Hr & Hv). destruct (canon_col_spec eps c) as (Hi & _ & Hincl & Hnn). repeat split.
+    - exact Hi.
     - rewrite !map_length. reflexivity.
-    - unfold in_range in *. eapply Permutation_Forall; [apply Permutation_map; exact Hp|exact Hr].
-    - unfold nonnegv in *. eapply Permutation_Forall; [apply Permutation_map; exact Hp|exact Hv].
+    - unfold in_range in *. rewrite Forall_forall in *. intros k Hk. apply Hr. apply Hincl. exact Hk.
+    - apply Hnn. exact Hv.
   Qed.
 
-  Lemma dense_sorted_col : forall c k, NoDup (keys c) ->
-    dense R 0 (map fst (sort_col R c)) (map snd (sort_col R c)) k = lookupR k c.
-  Proof. intros. unfold dense. rewrite combine_fst_snd. apply lookup_sort_col. assumption. Qed.
+  Lemma dense_canon_col : forall c k,
+    dense R 0 (map fst (canon_col R O c)) (map snd (canon_col R O c)) k = lookup_sum k c.
+  Proof. intros. unfold dense. rewrite combine_fst_snd. apply (canon_col_spec eps c). Qed.
 
-  Lemma sum_data_sorted_col : forall n c, col_ok n c ->
-    sumR (map snd (sort_col R c)) = sumR (map (fun i => lookupR (Z.of_nat i) c) (seq 0 n)).
+  Lemma sum_data_canon_col : forall n c, col_okd n c ->
+    sumR (map snd (canon_col R O c)) = sumR (map (fun i => lookup_sum (Z.of_nat i) c) (seq 0 n)).
   Proof.
-    intros n c Hc. destruct (sorted_col_ok n c Hc) as (Hok & Hr & _). destruct Hc as (Hn & _ & _).
+    intros n c Hc. destruct (canon_col_ok n c Hc) as (Hok & Hr & _).
     rewrite <- (sumR_to_dense n _ _ Hok Hr). unfold to_dense. f_equal. apply map_ext. intros i.
-    apply dense_sorted_col. assumption.
+    apply dense_canon_col.
   Qed.
 
-  Theorem information_weight_R : forall n cols s,
-    Forall (col_ok n) cols -> 0 < s ->
+  Lemma MxS_nonneg : forall n cols i k, Forall (col_okd n) cols -> 0 <= MxS cols i k.
+  Proof.
+    intros n cols i k H. unfold MxS. apply lookup_sum_nonneg.
+    destruct (Nat.lt_ge_cases k (length cols)) as [Hk|Hk].
+    - rewrite Forall_forall in H. destruct (H (nth k cols []) (nth_In _ _ Hk)) as (_ & Hv). exact Hv.
+    - rewrite nth_overflow by assumption. constructor.
+  Qed.
+
+  (* the modelled information_weight on ANY stored matrix (duplicates, any order, explicit zeros) is the KL sum of the
+     dense matrix it denotes *)
+  Theorem information_weight_R_dup : forall n cols s,
+    Forall (col_okd n) cols -> 0 < s ->
     information_weight R O false n cols s
-    = map (fun j => Some (iw_spec n (length cols) s (Mx cols) j)) (seq 0 (length cols)).
+    = map (fun j => Some (iw_spec n (length cols) s (MxS cols) j)) (seq 0 (length cols)).
   Proof.
     intros n cols s Hcols Hs.
-    assert (Hnd : Forall (fun c => NoDup (keys c)) cols) by (eapply Forall_impl; [|exact Hcols]; intros c (H & _); exact H).
-    unfold information_weight. rewrite baseline_R by assumption.
-    set (b := map (fun i => rowsum (Mx cols) (length cols) i / total (Mx cols) n (length cols)) (seq 0 n)).
-    rewrite <- (map_nth_seq _ _ (fun c => column_kl_exact R O (map fst (sort_col R c)) (map snd (sort_col R c)) b s) cols []).
+    unfold information_weight. rewrite canonicalise_map, baseline_R, map_map.
+    set (b := map (fun i => rowsum (MxS cols) (length cols) i / total (MxS cols) n (length cols)) (seq 0 n)).
+    rewrite <- (map_nth_seq _ _ (fun c => column_kl_exact R O (map fst (canon_col R O c)) (map snd (canon_col R O c)) b s) cols []).
     apply map_ext_in. intros j Hj. apply in_seq in Hj.
-    assert (Hc : col_ok n (nth j cols [])) by (rewrite Forall_forall in Hcols; apply Hcols; apply nth_In; lia).
-    destruct (sorted_col_ok n _ Hc) as (Hok & Hr & Hv).
+    assert (Hc : col_okd n (nth j cols [])) by (rewrite Forall_forall in Hcols; apply Hcols; apply nth_In; lia).
+    destruct (canon_col_ok n _ Hc) as (Hok & Hr & Hv).
     assert (Hb : nonnegv b).
     { unfold nonnegv, b. rewrite Forall_map. apply Forall_forall. intros i _.
-      assert (Hrs : forall i, 0 <= rowsum (Mx cols) (length cols) i).
-      { intros i0. unfold rowsum. apply sumR_nonneg. rewrite Forall_map. apply Forall_forall. intros j0 Hj0.
-        apply in_seq in Hj0. unfold Mx.
-        assert (Hc0 : col_ok n (nth j0 cols [])) by (rewrite Forall_forall in Hcols; apply Hcols; apply nth_in_or_default || (apply nth_In; lia)).
-        destruct Hc0 as (Hn0 & _ & Hv0).
-        destruct (In_dec Z.eq_dec (Z.of_nat i0) (keys (nth j0 cols []))) as [Hin|Hnot].
-        - unfold keys in Hin. apply in_map_iff in Hin. destruct Hin as ([k' v] & Hk & Hin). simpl in Hk. subst k'.
-          rewrite (lookup_in_nodup _ _ v Hn0 Hin). unfold nonnegv in Hv0. rewrite Forall_forall in Hv0.
-          apply Hv0. apply (in_map snd) in Hin. exact Hin.
-        - rewrite lookup_notin_keys by assumption. lra. }
-      assert (Ht : 0 <= total (Mx cols) n (length cols)).
+      assert (Hrs : forall i, 0 <= rowsum (MxS cols) (length cols) i).
+      { intros i0. unfold rowsum. apply sumR_nonneg. rewrite Forall_map. apply Forall_forall. intros j0 _.
+        apply (MxS_nonneg n). exact Hcols. }
+      assert (Ht : 0 <= total (MxS cols) n (length cols)).
       { unfold total. apply sumR_nonneg. rewrite Forall_map. apply Forall_forall. intros; apply Hrs. }
-      destruct (Req_dec (total (Mx cols) n (length cols)) 0) as [->|Hne].
+      destruct (Req_dec (total (MxS cols) n (length cols)) 0) as [->|Hne].
       - unfold Rdiv. rewrite Rinv_0. rewrite Rmult_0_r. lra.
       - apply Rmult_le_pos; [apply Hrs|]. left. apply Rinv_0_lt_compat. lra. }
     rewrite (column_kl_exact_R eps _ _ b s Hok Hv Hb Hs). f_equal.
     assert (Hlb : length b = n) by (unfold b; rewrite map_length, seq_length; reflexivity).
     unfold kl_column, iw_spec. rewrite Hlb.
     apply sumR_map_ext_in. intros i Hi. apply in_seq in Hi.
-    destruct Hc as (Hn & Hc2 & Hc3).
-    rewrite (dense_sorted_col _ _ Hn). unfold b. rewrite nth_map_seq by lia.
-    rewrite (sum_data_sorted_col n _ (conj Hn (conj Hc2 Hc3))). reflexivity.
+    rewrite dense_canon_col. unfold b. rewrite nth_map_seq by lia.
+    rewrite (sum_data_canon_col n _ Hc). reflexivity.
   Qed.
 End Matrix.
 
@@ -626,16 +793,41 @@ Section Transformer.
 End Transformer.
 
 (* ------------------------------------------------------------------ corollaries at the level of the stored matrix *)
+Lemma MxS_Mx : forall n cols i j, Forall (col_ok n) cols -> MxS cols i j = Mx cols i j.
+Proof.
+  intros n cols i j H. unfold MxS, Mx. apply lookup_sum_nodup.
+  destruct (Nat.lt_ge_cases j (length cols)) as [Hj|Hj].
+  - rewrite Forall_forall in H. destruct (H (nth j cols []) (nth_In _ _ Hj)) as (Hn & _). exact Hn.
+  - rewrite nth_overflow by assumption. constructor.
+Qed.
+
+Lemma Forall_col_ok_okd : forall n cols, Forall (col_ok n) cols -> Forall (col_okd n) cols.
+Proof. intros n cols H. eapply Forall_impl; [|exact H]. apply col_ok_okd. Qed.
+
+(* at most one entry per (row, column): the dense meaning is the plain lookup *)
+Theorem information_weight_R : forall eps n cols s,
+  Forall (col_ok n) cols -> 0 < s ->
+  information_weight R (R_ops eps) false n cols s
+  = map (fun j => Some (iw_spec n (length cols) s (Mx cols) j)) (seq 0 (length cols)).
+Proof.
+  intros eps n cols s Hcols Hs. rewrite information_weight_R_dup by (try apply Forall_col_ok_okd; assumption).
+  apply map_ext_in. intros j Hj. apply in_seq in Hj. f_equal. apply iw_spec_ext; [lia|].
+  intros i k _ _. apply (MxS_Mx n). exact Hcols.
+Qed.
+
 Lemma Mx_nonneg : forall n cols i k, Forall (col_ok n) cols -> (k < length cols)%nat -> 0 <= Mx cols i k.
 Proof.
-  intros n cols i k H Hk. unfold Mx.
-  assert (Hc : col_ok n (nth k cols [])) by (rewrite Forall_forall in H; apply H; apply nth_In; assumption).
-  destruct Hc as (Hn & _ & Hv).
-  destruct (In_dec Z.eq_dec (Z.of_nat i) (keys (nth k cols []))) as [Hin|Hnot].
-  - unfold keys in Hin. apply in_map_iff in Hin. destruct Hin as ([k' v] & Hk' & Hin). simpl in Hk'. subst k'.
-    rewrite (lookup_in_nodup _ _ v Hn Hin). unfold nonnegv in Hv. rewrite Forall_forall in Hv.
-    apply Hv. apply (in_map snd) in Hin. exact Hin.
-  - rewrite lookup_notin_keys by assumption. lra.
+  intros n cols i k H _. rewrite <- (MxS_Mx n) by exact H. apply (MxS_nonneg n). apply Forall_col_ok_okd. exact H.
+Qed.
+
+Theorem information_weight_nonneg_dup : forall eps n cols s,
+  Forall (col_okd n) cols -> 0 < s -> 0 < total (MxS cols) n (length cols) ->
+  Forall (fun w => exists x, w = Some x /\ 0 <= x) (information_weight R (R_ops eps) false n cols s).
+Proof.
+  intros eps n cols s H Hs Ht. rewrite information_weight_R_dup by assumption.
+  rewrite Forall_map. apply Forall_forall. intros j Hj. apply in_seq in Hj.
+  eexists. split; [reflexivity|]. apply iw_spec_nonneg; auto; try lia.
+  intros i k _ _. apply (MxS_nonneg n). exact H.
 Qed.
 
 Theorem information_weight_nonneg : forall eps n cols s,
@@ -648,6 +840,16 @@ Proof.
   intros i k _ Hk. apply (Mx_nonneg n); assumption.
 Qed.
 
+(* two stored matrices (duplicates, any order, explicit zeros) with the same dense meaning get the same weights *)
+Theorem information_weight_layout_dup : forall eps n cols cols' s,
+  Forall (col_okd n) cols -> Forall (col_okd n) cols' -> length cols = length cols' -> 0 < s ->
+  (forall i j, (i < n)%nat -> (j < length cols)%nat -> MxS cols i j = MxS cols' i j) ->
+  information_weight R (R_ops eps) false n cols s = information_weight R (R_ops eps) false n cols' s.
+Proof.
+  intros eps n cols cols' s H H' Hl Hs HM. rewrite !information_weight_R_dup by assumption. rewrite <- Hl.
+  apply map_ext_in. intros j Hj. apply in_seq in Hj. f_equal. apply iw_spec_ext; [lia|assumption].
+Qed.
+
 Theorem information_weight_layout : forall eps n cols cols' s,
   Forall (col_ok n) cols -> Forall (col_ok n) cols' -> length cols = length cols' -> 0 < s ->
   (forall i j, (i < n)%nat -> (j < length cols)%nat -> Mx cols i j = Mx cols' i j) ->
@@ -655,4 +857,84 @@ Theorem information_weight_layout : forall eps n cols cols' s,
 Proof.
   intros eps n cols cols' s H H' Hl Hs HM. rewrite !information_weight_R by assumption. rewrite <- Hl.
   apply map_ext_in. intros j Hj. apply in_seq in Hj. f_equal. apply iw_spec_ext; [lia|assumption].
+Qed.
+
+(* ------------------------------------------------------------------ a matrix given as (row, column, value) triples *)
+Definition t_row (t : Z * Z * R) : Z := fst (fst t).
+Definition t_col (t : Z * Z * R) : Z := snd (fst t).
+Definition t_val (t : Z * Z * R) : R := snd t.
+
+(* the CSC storage of the triples: column j holds, in the order of the list, the (row, value) of every triple of
+   column j (what a stable conversion to CSC produces; CSR / CSC / COO inputs differ in the order of the list only) *)
+Definition csc_of_triples (m : nat) (tr : list (Z * Z * R)) : list (list (Z * R)) :=
+  map (fun j => map (fun t => (t_row t, t_val t)) (filter (fun t => (t_col t =? Z.of_nat j)%Z) tr)) (seq 0 m).
+
+(* SPEC: the dense matrix the triples denote: entry (i, j) = the sum of the values given for (i, j) *)
+Definition dense_of_triples (tr : list (Z * Z * R)) (i j : nat) : R :=
+  sumR (map t_val (filter (fun t => (t_row t =? Z.of_nat i)%Z && (t_col t =? Z.of_nat j)%Z) tr)).
+
+Definition triples_ok (n m : nat) (tr : list (Z * Z * R)) : Prop :=
+  Forall (fun t => (0 <= t_row t < Z.of_nat n)%Z /\ (0 <= t_col t < Z.of_nat m)%Z /\ 0 <= t_val t) tr.
+
+Lemma csc_of_triples_length : forall m tr, length (csc_of_triples m tr) = m.
+Proof. intros. unfold csc_of_triples. rewrite map_length, seq_length. reflexivity. Qed.
+
+Lemma nth_csc_of_triples : forall m tr j, (j < m)%nat ->
+  nth j (csc_of_triples m tr) [] = map (fun t => (t_row t, t_val t)) (filter (fun t => (t_col t =? Z.of_nat j)%Z) tr).
+Proof.
+  intros m tr j Hj. unfold csc_of_triples.
+  set (f := fun j0 : nat => map (fun t : Z * Z * R => (t_row t, t_val t)) (filter (fun t => (t_col t =? Z.of_nat j0)%Z) tr)).
+  rewrite (nth_indep _ [] (f 0%nat)) by (rewrite map_length, seq_length; exact Hj).
+  rewrite map_nth, seq_nth by exact Hj. reflexivity.
+Qed.
+
+Lemma MxS_csc_of_triples : forall m tr i j, (j < m)%nat ->
+  MxS (csc_of_triples m tr) i j = dense_of_triples tr i j.
+Proof.
+  intros m tr i j Hj. unfold MxS, dense_of_triples. rewrite nth_csc_of_triples by exact Hj.
+  induction tr as [|t tr IH]; [reflexivity|]. simpl.
+  destruct (t_col t =? Z.of_nat j)%Z; simpl.
+  - rewrite lookup_sum_cons. simpl. rewrite IH. destruct (t_row t =? Z.of_nat i)%Z; simpl; lra.
+  - rewrite IH. rewrite Bool.andb_false_r. reflexivity.
+Qed.
+
+Lemma csc_of_triples_okd : forall n m tr, triples_ok n m tr -> Forall (col_okd n) (csc_of_triples m tr).
+Proof.
+  intros n m tr H. unfold csc_of_triples. rewrite Forall_map. apply Forall_forall. intros j _.
+  unfold col_okd, keys, in_range, nonnegv. rewrite !map_map. simpl. rewrite !Forall_map.
+  split; apply Forall_forall; intros t Ht; apply filter_In in Ht; destruct Ht as [Ht _];
+    unfold triples_ok in H; rewrite Forall_forall in H; destruct (H t Ht) as (H1 & H2 & H3); assumption.
+Qed.
+
+Lemma dense_of_triples_perm : forall tr tr' i j, Permutation tr tr' -> dense_of_triples tr i j = dense_of_triples tr' i j.
+Proof.
+  intros tr tr' i j H. unfold dense_of_triples.
+  induction H; simpl; try lra.
+  - destruct (_ && _); simpl; lra.
+  - destruct ((t_row y =? Z.of_nat i)%Z && (t_col y =? Z.of_nat j)%Z);
+      destruct ((t_row x =? Z.of_nat i)%Z && (t_col x =? Z.of_nat j)%Z); simpl; lra.
+Qed.
+
+(* any list of triples with non-negative values, repeated coordinates allowed, in any order: the weights computed from
+   the canonicalised storage are the KL sums of the dense matrix the triples denote *)
+Theorem information_weight_triples : forall eps n m tr s,
+  triples_ok n m tr -> 0 < s ->
+  information_weight R (R_ops eps) false n (csc_of_triples m tr) s
+  = map (fun j => Some (iw_spec n m s (dense_of_triples tr) j)) (seq 0 m).
+Proof.
+  intros eps n m tr s H Hs. rewrite information_weight_R_dup by (try apply csc_of_triples_okd with (m := m); assumption).
+  rewrite csc_of_triples_length. apply map_ext_in. intros j Hj. apply in_seq in Hj. f_equal.
+  apply iw_spec_ext; [lia|]. intros i k _ Hk. apply MxS_csc_of_triples. exact Hk.
+Qed.
+
+Theorem information_weight_triples_perm : forall eps n m tr tr' s,
+  triples_ok n m tr -> Permutation tr tr' -> 0 < s ->
+  information_weight R (R_ops eps) false n (csc_of_triples m tr) s
+  = information_weight R (R_ops eps) false n (csc_of_triples m tr') s.
+Proof.
+  intros eps n m tr tr' s H Hp Hs.
+  assert (H' : triples_ok n m tr') by (unfold triples_ok in *; eapply Permutation_Forall; eauto).
+  rewrite !information_weight_triples by assumption.
+  apply map_ext_in. intros j Hj. apply in_seq in Hj. f_equal. apply iw_spec_ext; [lia|].
+  intros i k _ _. apply dense_of_triples_perm. exact Hp.
 Qed.
